@@ -519,6 +519,49 @@ pub fn shrink(s: &dyn Scenario, params: &Value, class: &str, budget_s: f64) -> (
     (cur, cur_v)
 }
 
+/// For a failing simulated run: record its schedule, make the replay file carry it explicitly
+/// (`sim.replay_tasks`), and greedily remove context switches while the same violation class
+/// recurs. Returns the parameters with the simplified schedule, or None when the scenario has no
+/// scheduler or the explicit schedule does not reproduce the class.
+pub fn minimise_schedule(s: &dyn Scenario, params: &Value, class: &str, budget_s: f64) -> Option<Value> {
+    let sim = params.get("sim")?;
+    if sim.get("replay_tasks").is_some() {
+        return None;
+    }
+    let t0 = Instant::now();
+    let o = guarded_execute(s, params, true);
+    if !o.violations.iter().any(|v| v.class == class) {
+        return None;
+    }
+    let sched = o.schedule?;
+    let with_tasks = |tasks: &[u32]| -> Value { with(params, "sim", with(sim, "replay_tasks", json!(tasks))) };
+    let reproduces = |tasks: &[u32]| -> bool {
+        let o = guarded_execute(s, &with_tasks(tasks), false);
+        o.harness_error.is_none() && o.violations.iter().any(|v| v.class == class)
+    };
+    if !reproduces(&sched) {
+        return None;
+    }
+    let mut used = 0usize;
+    let simplified = mcmc_sim::sim::simplify_schedule(&sched, 400, |cand| {
+        used += 1;
+        if t0.elapsed().as_secs_f64() > budget_s {
+            return false;
+        }
+        reproduces(cand)
+    });
+    let _ = used;
+    // collapse a constant tail (the replay scheduler keeps the current task anyway)
+    let mut tasks = simplified;
+    while tasks.len() >= 2 && tasks[tasks.len() - 1] == tasks[tasks.len() - 2] {
+        tasks.pop();
+    }
+    if !reproduces(&tasks) {
+        return Some(with_tasks(&sched));
+    }
+    Some(with_tasks(&tasks))
+}
+
 pub fn write_replay(prop: &str, scen: &str, seed: u64, idx: u64, params: &Value, v: &Violation, src_fp: &str) -> PathBuf {
     let dir = verif_dir().join("replays");
     let _ = std::fs::create_dir_all(&dir);
@@ -698,7 +741,11 @@ pub fn parent_main(prop: &PropertyDef, all_props_bin: &Path, opts: &ParentOpts) 
         n_reported += 1;
         let Some(s) = find_scenario(prop, scen) else { continue };
         let (small, small_v) = shrink(s, params, &v.class, 45.0);
-        let (rp, rv) = if small_v.detail == "not reproduced in parent" { (params.clone(), v.clone()) } else { (small, small_v) };
+        let (mut rp, rv) = if small_v.detail == "not reproduced in parent" { (params.clone(), v.clone()) } else { (small, small_v) };
+        // second stage for scheduler-driven runs: store the explicit, simplified schedule
+        if let Some(min) = minimise_schedule(s, &rp, &rv.class, 20.0) {
+            rp = min;
+        }
         let path = write_replay(prop.id, scen, opts.seed, *idx, &rp, &rv, &opts.src_fp);
         // replay once in a fresh process before reporting
         let st = std::process::Command::new(all_props_bin).arg("--replay").arg(&path).stdout(std::process::Stdio::null()).stderr(std::process::Stdio::null()).status();
